@@ -1,3 +1,735 @@
 // harnesses mounted as child module of agdb/src/graph.rs
 #[allow(unused_imports)]
 use super::*;
+
+use crate::verif_support::{ArrGraph, ArrStorage, GN, ok};
+
+// ---------------------------------------------------------------------------
+// Shared by graph_h.rs, graph_search_h.rs, search_impl_h.rs, path_search_h.rs
+// ---------------------------------------------------------------------------
+
+pub(crate) type ArrG = GraphImpl<ArrStorage, ArrGraph>;
+
+/// The real `GraphImpl` over the array-backed `GraphData` (same initial
+/// content as `DbGraph::new`).
+pub(crate) fn new_arr_graph() -> ArrG {
+    GraphImpl {
+        data: ArrGraph::new(),
+        storage: PhantomData,
+    }
+}
+
+pub(crate) fn arr_data(g: &ArrG) -> &ArrGraph {
+    &g.data
+}
+
+/// Reference multigraph in plain arrays, indexed by slot number (= |id|).
+#[derive(Clone, Copy)]
+pub(crate) struct RefGraph {
+    /// 0 = free / never used, 1 = node, 2 = edge
+    pub kind: [u8; GN],
+    /// origin node id of the edge in this slot
+    pub ef: [i64; GN],
+    /// destination node id of the edge in this slot
+    pub et: [i64; GN],
+    /// insertion sequence number of the edge in this slot (larger = newer)
+    pub seq: [u32; GN],
+    pub next_seq: u32,
+    /// number of slots handed out so far + 1 (slot 0 is the header)
+    pub cap: usize,
+    /// concrete loop limit of the harness: slots >= lim are never used (lim <= GN)
+    pub lim: usize,
+    /// concrete bound on the length of any adjacency list in the harness
+    pub maxl: usize,
+}
+
+impl RefGraph {
+    pub(crate) fn new() -> Self {
+        Self::with_limit(GN)
+    }
+
+    pub(crate) fn with_limit(lim: usize) -> Self {
+        RefGraph {
+            kind: [0; GN],
+            ef: [0; GN],
+            et: [0; GN],
+            seq: [0; GN],
+            next_seq: 1,
+            cap: 1,
+            lim,
+            maxl: lim,
+        }
+    }
+
+    pub(crate) fn slot(a: i64) -> usize {
+        // 0 = "no such slot"
+        if a == i64::MIN {
+            return 0;
+        }
+        let m = a.unsigned_abs();
+        if m >= GN as u64 { 0 } else { m as usize }
+    }
+
+    pub(crate) fn is_node(&self, a: i64) -> bool {
+        let s = Self::slot(a);
+        a > 0 && s != 0 && self.kind[s] == 1
+    }
+
+    pub(crate) fn is_edge(&self, a: i64) -> bool {
+        let s = Self::slot(a);
+        a < 0 && s != 0 && self.kind[s] == 2
+    }
+
+    /// An id whose sign contradicts the kind of the live element in its slot
+    /// (`-n` for a live node `n`, `+e` for a live edge `-e`). `DbImpl::graph_index`
+    /// never lets such an id reach `GraphImpl`; the harnesses exclude it too.
+    pub(crate) fn wrong_sign(&self, a: i64) -> bool {
+        let s = Self::slot(a);
+        s != 0 && ((a < 0 && self.kind[s] == 1) || (a > 0 && self.kind[s] == 2))
+    }
+
+    pub(crate) fn node_count(&self) -> u64 {
+        let mut c = 0;
+        let mut i = 1;
+        while i < self.lim {
+            if self.kind[i] == 1 {
+                c += 1;
+            }
+            i += 1;
+        }
+        c
+    }
+
+    pub(crate) fn has_free_below_cap(&self) -> bool {
+        let mut i = 1;
+        while i < self.lim {
+            if i < self.cap && self.kind[i] == 0 {
+                return true;
+            }
+            i += 1;
+        }
+        false
+    }
+
+    pub(crate) fn count_from(&self, n: i64) -> u64 {
+        let mut c = 0;
+        let mut i = 1;
+        while i < self.lim {
+            if self.kind[i] == 2 && self.ef[i] == n {
+                c += 1;
+            }
+            i += 1;
+        }
+        c
+    }
+
+    pub(crate) fn count_to(&self, n: i64) -> u64 {
+        let mut c = 0;
+        let mut i = 1;
+        while i < self.lim {
+            if self.kind[i] == 2 && self.et[i] == n {
+                c += 1;
+            }
+            i += 1;
+        }
+        c
+    }
+}
+
+fn c08_same_arrays(a: &ArrGraph, b: &ArrGraph, lim: usize) -> bool {
+    let mut same = a.cap == b.cap
+        && a.from[0] == b.from[0]
+        && a.to[0] == b.to[0]
+        && a.from_meta[0] == b.from_meta[0]
+        && a.to_meta[0] == b.to_meta[0];
+    let mut i = 1;
+    while i < lim {
+        same = same
+            && a.from[i] == b.from[i]
+            && a.to[i] == b.to[i]
+            && a.from_meta[i] == b.from_meta[i]
+            && a.to_meta[i] == b.to_meta[i];
+        i += 1;
+    }
+    same
+}
+
+/// Records a newly returned slot in the model after checking that it was not
+/// live and that a free slot is reused when there is one.
+fn c08_new_slot(m: &mut RefGraph, slot: i64) -> usize {
+    assert!(slot > 0 && (slot as usize) < GN, "new id magnitude outside the slots handed out");
+    let sl = slot as usize;
+    assert!(m.kind[sl] == 0, "new element received an id that is in use");
+    if m.has_free_below_cap() {
+        assert!(sl < m.cap, "free slot exists but the structure grew");
+    } else {
+        assert!(sl == m.cap, "fresh slot is not the next one");
+        m.cap += 1;
+    }
+    sl
+}
+
+/// One real operation mirrored in the model. kind: 0 insert_node, 1 insert_edge(a, b),
+/// 2 remove_node(a), 3 remove_edge(a).
+pub(crate) fn graph_step(
+    g: &mut ArrG,
+    s: &mut Storage<ArrStorage>,
+    m: &mut RefGraph,
+    kind: u8,
+    a: i64,
+    b: i64,
+) {
+    let before = g.data;
+    match kind {
+        0 => {
+            let id = ok(g.insert_node(s));
+            assert!(id.0 > 0, "node id not positive");
+            let sl = c08_new_slot(m, id.0);
+            m.kind[sl] = 1;
+        }
+        1 => {
+            let valid = m.is_node(a) && m.is_node(b);
+            match g.insert_edge(s, GraphIndex(a), GraphIndex(b)) {
+                Ok(id) => {
+                    assert!(valid, "insert_edge with a missing endpoint succeeded");
+                    assert!(id.0 < 0, "edge id not negative");
+                    let sl = c08_new_slot(m, -id.0);
+                    m.kind[sl] = 2;
+                    m.ef[sl] = a;
+                    m.et[sl] = b;
+                    m.seq[sl] = m.next_seq;
+                    m.next_seq += 1;
+                }
+                Err(e) => {
+                    std::mem::forget(e);
+                    assert!(!valid, "insert_edge between existing nodes failed");
+                    assert!(c08_same_arrays(&before, &g.data, m.lim), "failed insert_edge changed the graph");
+                }
+            }
+        }
+        2 => {
+            ok(g.remove_node(s, GraphIndex(a)));
+            if m.is_node(a) {
+                m.kind[RefGraph::slot(a)] = 0;
+                let mut i = 1;
+                while i < m.lim {
+                    if m.kind[i] == 2 && (m.ef[i] == a || m.et[i] == a) {
+                        m.kind[i] = 0;
+                    }
+                    i += 1;
+                }
+            } else {
+                assert!(c08_same_arrays(&before, &g.data, m.lim), "remove_node of a missing node changed the graph");
+            }
+        }
+        _ => {
+            ok(g.remove_edge(s, GraphIndex(a)));
+            if m.is_edge(a) {
+                m.kind[RefGraph::slot(a)] = 0;
+            } else {
+                assert!(c08_same_arrays(&before, &g.data, m.lim), "remove_edge of a missing edge changed the graph");
+            }
+        }
+    }
+}
+
+/// Arguments the public API can hand to `GraphImpl` (see `RefGraph::wrong_sign`).
+pub(crate) fn graph_step_pre(m: &RefGraph, kind: u8, a: i64, b: i64) -> bool {
+    kind <= 3 && a != i64::MIN && b != i64::MIN && !m.wrong_sign(a) && (kind != 1 || !m.wrong_sign(b))
+}
+
+/// Everything observable about slot `sl` agrees with the model.
+fn c08_check_slot(g: &ArrG, s: &Storage<ArrStorage>, m: &RefGraph, sl: usize) {
+    let nid = GraphIndex(sl as i64);
+    let eid = GraphIndex(-(sl as i64));
+    let n = g.node(s, nid);
+    let e = g.edge(s, eid);
+    if m.kind[sl] == 1 {
+        assert!(e.is_none(), "node slot visible as edge");
+        assert!(n.is_some(), "live node not found");
+        let n = n.unwrap();
+        assert!(n.edge_count_from() == m.count_from(nid.0), "outgoing count differs");
+        assert!(n.edge_count_to() == m.count_to(nid.0), "incoming count differs");
+        assert!(n.edge_count() == m.count_from(nid.0) + m.count_to(nid.0), "edge_count differs");
+        // outgoing list: exactly the model's edges, newest first
+        let mut it = n.edge_iter_from();
+        let mut cnt = 0u64;
+        let mut last = u32::MAX;
+        let mut k = 0;
+        while k < m.maxl {
+            match it.next() {
+                Some(e) => {
+                    let i = e.index();
+                    assert!(m.is_edge(i.0), "outgoing list yields a non-edge");
+                    let es = RefGraph::slot(i.0);
+                    assert!(m.ef[es] == nid.0, "outgoing list yields an edge of another node");
+                    assert!(m.seq[es] < last, "outgoing list not newest-first / repeats");
+                    assert!(e.index_from() == nid && e.index_to().0 == m.et[es], "edge endpoints differ (iterator)");
+                    last = m.seq[es];
+                    cnt += 1;
+                }
+                None => break,
+            }
+            k += 1;
+        }
+        assert!(it.next().is_none(), "outgoing list too long");
+        assert!(cnt == m.count_from(nid.0), "outgoing list misses edges");
+        // incoming list
+        let mut it = n.edge_iter_to();
+        let mut cnt = 0u64;
+        let mut last = u32::MAX;
+        let mut k = 0;
+        while k < m.maxl {
+            match it.next() {
+                Some(e) => {
+                    let i = e.index();
+                    assert!(m.is_edge(i.0), "incoming list yields a non-edge");
+                    let es = RefGraph::slot(i.0);
+                    assert!(m.et[es] == nid.0, "incoming list yields an edge of another node");
+                    assert!(m.seq[es] < last, "incoming list not newest-first / repeats");
+                    last = m.seq[es];
+                    cnt += 1;
+                }
+                None => break,
+            }
+            k += 1;
+        }
+        assert!(it.next().is_none(), "incoming list too long");
+        assert!(cnt == m.count_to(nid.0), "incoming list misses edges");
+    } else if m.kind[sl] == 2 {
+        assert!(n.is_none(), "edge slot visible as node");
+        assert!(e.is_some(), "live edge not found");
+        let e = e.unwrap();
+        assert!(e.index() == eid, "edge index differs");
+        assert!(e.index_from().0 == m.ef[sl], "edge origin differs");
+        assert!(e.index_to().0 == m.et[sl], "edge destination differs");
+        assert!(g.edge_from(s, eid).0 == m.ef[sl] && g.edge_to(s, eid).0 == m.et[sl], "edge_from/edge_to differ");
+    } else {
+        assert!(n.is_none(), "free slot visible as node");
+        assert!(e.is_none(), "free slot visible as edge");
+    }
+}
+
+/// The free-slot stack threaded through `from_meta` holds exactly the free
+/// slots below the capacity, each once.
+fn c08_check_free_list(g: &ArrG, m: &RefGraph) {
+    let d = &g.data;
+    assert!(d.cap as usize == m.cap, "capacity differs from the number of slots handed out");
+    let mut seen = [false; GN];
+    let mut cur = d.from_meta[0];
+    let mut n = 0;
+    let mut k = 0;
+    while k < m.lim {
+        if cur == i64::MIN {
+            break;
+        }
+        assert!(cur < 0 && -cur < m.cap as i64, "free list entry out of range");
+        let sl = (-cur) as usize;
+        assert!(m.kind[sl] == 0, "free list contains a live slot");
+        assert!(!seen[sl], "free list has a cycle");
+        seen[sl] = true;
+        n += 1;
+        cur = d.from_meta[sl];
+        k += 1;
+    }
+    assert!(cur == i64::MIN, "free list not terminated");
+    let mut free = 0;
+    let mut i = 1;
+    while i < m.lim {
+        if i < m.cap && m.kind[i] == 0 {
+            free += 1;
+            assert!(d.from[i] == 0 && d.to[i] == 0 && d.to_meta[i] == 0, "freed slot not cleared");
+        }
+        i += 1;
+    }
+    assert!(n == free, "free list lost a slot");
+}
+
+/// Full comparison of the real graph with the model: `sl` is a symbolic slot,
+/// so the solver checks every slot.
+pub(crate) fn graph_check(g: &ArrG, s: &Storage<ArrStorage>, m: &RefGraph) {
+    assert!(ok(g.node_count(s)) == m.node_count(), "node_count differs");
+    let sl: usize = kani::any();
+    kani::assume(sl >= 1 && sl < m.lim);
+    c08_check_slot(g, s, m, sl);
+    c08_check_free_list(g, m);
+}
+
+fn c08_any_in(lo: i64, hi: i64) -> i64 {
+    let a: i64 = kani::any();
+    kani::assume(a >= lo && a <= hi);
+    a
+}
+
+fn c08_any_arg(m: &RefGraph, kind: u8) -> i64 {
+    let a: i64 = kani::any();
+    kani::assume(graph_step_pre(m, kind, a, 0));
+    a
+}
+
+//@ id=C08 tier=quick timeout=900 bounds="nodes 1,2; three edges with symbolic endpoints in {1,2} (self-loops, parallel edges); remove_edge(any i64 id except sign-contradicting ones); <= 5 slots" desc="unlinking an edge from the first/middle/last position of the outgoing and incoming lists keeps endpoints, per-node counts (self-loop on both sides), newest-first adjacency lists, node_count and the free list equal to the reference multigraph; a missing id changes nothing" kernel="GraphImpl::insert_edge,GraphImpl::remove_edge,GraphImpl::remove_from_edge,GraphImpl::remove_to_edge,GraphImpl::free_index,GraphNode::edge_iter_from,GraphNode::edge_iter_to" args="--no-assertion-reach-checks" cbmc="--unwindset _RINvNtCs8xvirJzNMvV_4core3ptr9drop_glueNtNtNtCsblifWy3Zr35_4agdb2db8db_error7DbErrorEBH_:1,_RNvMsb_NtCsblifWy3Zr35_4agdb5graphINtB5_9GraphImplNtNtB7_13verif_support10ArrStorageNtBO_8ArrGraphE16remove_from_edgeB7_.0:4,_RNvMsb_NtCsblifWy3Zr35_4agdb5graphINtB5_9GraphImplNtNtB7_13verif_support10ArrStorageNtBO_8ArrGraphE14remove_to_edgeB7_.0:4,_RNvMsb_NtCsblifWy3Zr35_4agdb5graphINtB5_9GraphImplNtNtB7_13verif_support10ArrStorageNtBO_8ArrGraphE17remove_from_edgesB7_.0:4,_RNvMsb_NtCsblifWy3Zr35_4agdb5graphINtB5_9GraphImplNtNtB7_13verif_support10ArrStorageNtBO_8ArrGraphE15remove_to_edgesB7_.0:4"
+#[kani::proof]
+#[kani::stub(std::fmt::format, crate::verif_support::fmt_stub)]
+#[kani::stub(crate::DbError::new, crate::verif_support::dberror_new_stub)]
+#[kani::unwind(6)]
+fn c08_edge_unlink_positions() {
+    let mut s = crate::storage::verif_h::fresh_arr_storage();
+    let mut g = new_arr_graph();
+    let mut m = RefGraph::with_limit(6);
+    m.maxl = 3;
+    graph_step(&mut g, &mut s, &mut m, 0, 0, 0);
+    graph_step(&mut g, &mut s, &mut m, 0, 0, 0);
+    let (a1, b1) = (c08_any_in(1, 2), c08_any_in(1, 2));
+    let (a2, b2) = (c08_any_in(1, 2), c08_any_in(1, 2));
+    let (a3, b3) = (c08_any_in(1, 2), c08_any_in(1, 2));
+    graph_step(&mut g, &mut s, &mut m, 1, a1, b1);
+    graph_step(&mut g, &mut s, &mut m, 1, a2, b2);
+    graph_step(&mut g, &mut s, &mut m, 1, a3, b3);
+    assert!(m.is_edge(-3) && m.is_edge(-4) && m.is_edge(-5), "edges did not get ids -3,-4,-5");
+    let x = c08_any_arg(&m, 3);
+    graph_step(&mut g, &mut s, &mut m, 3, x, 0);
+    graph_check(&g, &s, &m);
+    let same_from = a1 == a2 && a2 == a3;
+    let same_to = b1 == b2 && b2 == b3;
+    kani::cover!(same_from && !same_to && x == -5, "removed the first (newest) edge of an outgoing list of 3");
+    kani::cover!(same_from && !same_to && x == -4, "removed the middle edge of an outgoing list of 3");
+    kani::cover!(same_from && !same_to && x == -3, "removed the last (oldest) edge of an outgoing list of 3");
+    kani::cover!(same_to && !same_from && x == -4, "removed the middle edge of an incoming list of 3");
+    kani::cover!(x == -4 && same_from && same_to && a1 == b1, "removed the middle one of three self-loops");
+    kani::cover!(true, "end of harness reachable");
+    std::mem::forget(s);
+}
+
+//@ id=C08 tier=quick timeout=900 bounds="nodes 1,2; edges -3 = 1->2 and two edges with symbolic endpoints in {1,2}; remove_edge(x) with x in {-3,-4,-5}; one more edge with symbolic endpoints; <= 5 slots" desc="after an unlink the freed slot is reused by the next edge, which gets an id that was not live, is listed first (newest) in both adjacency lists, and the whole graph equals the reference multigraph" kernel="GraphImpl::insert_edge,GraphImpl::remove_edge,GraphImpl::get_free_index,GraphImpl::free_index,GraphImpl::set_edge,GraphImpl::update_from_edge,GraphImpl::update_to_edge" args="--no-assertion-reach-checks" cbmc="--unwindset _RINvNtCs8xvirJzNMvV_4core3ptr9drop_glueNtNtNtCsblifWy3Zr35_4agdb2db8db_error7DbErrorEBH_:1,_RNvMsb_NtCsblifWy3Zr35_4agdb5graphINtB5_9GraphImplNtNtB7_13verif_support10ArrStorageNtBO_8ArrGraphE16remove_from_edgeB7_.0:4,_RNvMsb_NtCsblifWy3Zr35_4agdb5graphINtB5_9GraphImplNtNtB7_13verif_support10ArrStorageNtBO_8ArrGraphE14remove_to_edgeB7_.0:4,_RNvMsb_NtCsblifWy3Zr35_4agdb5graphINtB5_9GraphImplNtNtB7_13verif_support10ArrStorageNtBO_8ArrGraphE17remove_from_edgesB7_.0:4,_RNvMsb_NtCsblifWy3Zr35_4agdb5graphINtB5_9GraphImplNtNtB7_13verif_support10ArrStorageNtBO_8ArrGraphE15remove_to_edgesB7_.0:4"
+#[kani::proof]
+#[kani::stub(std::fmt::format, crate::verif_support::fmt_stub)]
+#[kani::stub(crate::DbError::new, crate::verif_support::dberror_new_stub)]
+#[kani::unwind(6)]
+fn c08_edge_slot_reuse_after_unlink() {
+    let mut s = crate::storage::verif_h::fresh_arr_storage();
+    let mut g = new_arr_graph();
+    let mut m = RefGraph::with_limit(6);
+    m.maxl = 3;
+    graph_step(&mut g, &mut s, &mut m, 0, 0, 0);
+    graph_step(&mut g, &mut s, &mut m, 0, 0, 0);
+    graph_step(&mut g, &mut s, &mut m, 1, 1, 2);
+    let (a2, b2) = (c08_any_in(1, 2), c08_any_in(1, 2));
+    let (a3, b3) = (c08_any_in(1, 2), c08_any_in(1, 2));
+    graph_step(&mut g, &mut s, &mut m, 1, a2, b2);
+    graph_step(&mut g, &mut s, &mut m, 1, a3, b3);
+    let x = c08_any_in(-5, -3);
+    graph_step(&mut g, &mut s, &mut m, 3, x, 0);
+    let (a4, b4) = (c08_any_in(1, 2), c08_any_in(1, 2));
+    graph_step(&mut g, &mut s, &mut m, 1, a4, b4);
+    assert!(m.cap == 6 && m.is_edge(x), "freed slot not reused");
+    graph_check(&g, &s, &m);
+    kani::cover!(x == -4 && a2 == 1 && a3 == 1 && a4 == 1, "middle slot of an outgoing list reused as its new head");
+    kani::cover!(x == -3 && a4 == 2 && b4 == 2, "slot of the oldest edge reused by a self-loop");
+    kani::cover!(true, "end of harness reachable");
+    std::mem::forget(s);
+}
+
+//@ id=C08 tier=quick timeout=1500 bounds="nodes 1,2,3; edge -4 = 2->3 and two edges with symbolic endpoints in {1,2,3}; remove_node(any i64 id except sign-contradicting ones); <= 6 slots" desc="remove_node removes the node and every incident edge (incoming, outgoing, self-loops, parallel edges) and nothing else: remaining endpoints, counts, newest-first lists, node_count and free list equal the reference; a missing id changes nothing" kernel="GraphImpl::remove_node,GraphImpl::remove_from_edges,GraphImpl::remove_to_edges,GraphImpl::remove_from_edge,GraphImpl::remove_to_edge,GraphImpl::free_index" args="--no-assertion-reach-checks" cbmc="--unwindset _RINvNtCs8xvirJzNMvV_4core3ptr9drop_glueNtNtNtCsblifWy3Zr35_4agdb2db8db_error7DbErrorEBH_:1,_RNvMsb_NtCsblifWy3Zr35_4agdb5graphINtB5_9GraphImplNtNtB7_13verif_support10ArrStorageNtBO_8ArrGraphE16remove_from_edgeB7_.0:4,_RNvMsb_NtCsblifWy3Zr35_4agdb5graphINtB5_9GraphImplNtNtB7_13verif_support10ArrStorageNtBO_8ArrGraphE14remove_to_edgeB7_.0:4,_RNvMsb_NtCsblifWy3Zr35_4agdb5graphINtB5_9GraphImplNtNtB7_13verif_support10ArrStorageNtBO_8ArrGraphE17remove_from_edgesB7_.0:4,_RNvMsb_NtCsblifWy3Zr35_4agdb5graphINtB5_9GraphImplNtNtB7_13verif_support10ArrStorageNtBO_8ArrGraphE15remove_to_edgesB7_.0:4"
+#[kani::proof]
+#[kani::stub(std::fmt::format, crate::verif_support::fmt_stub)]
+#[kani::stub(crate::DbError::new, crate::verif_support::dberror_new_stub)]
+#[kani::unwind(7)]
+fn c08_remove_node_cascade() {
+    let mut s = crate::storage::verif_h::fresh_arr_storage();
+    let mut g = new_arr_graph();
+    let mut m = RefGraph::with_limit(7);
+    m.maxl = 3;
+    graph_step(&mut g, &mut s, &mut m, 0, 0, 0);
+    graph_step(&mut g, &mut s, &mut m, 0, 0, 0);
+    graph_step(&mut g, &mut s, &mut m, 0, 0, 0);
+    graph_step(&mut g, &mut s, &mut m, 1, 2, 3);
+    let (a2, b2) = (c08_any_in(1, 3), c08_any_in(1, 3));
+    let (a3, b3) = (c08_any_in(1, 3), c08_any_in(1, 3));
+    graph_step(&mut g, &mut s, &mut m, 1, a2, b2);
+    graph_step(&mut g, &mut s, &mut m, 1, a3, b3);
+    let x = c08_any_arg(&m, 2);
+    graph_step(&mut g, &mut s, &mut m, 2, x, 0);
+    graph_check(&g, &s, &m);
+    let live_edges = m.count_from(1) + m.count_from(2) + m.count_from(3);
+    kani::cover!(x == 2 && a2 == 2 && b2 == 2 && a3 == 1 && b3 == 2 && live_edges == 0, "outgoing edge, self-loop and incoming edge removed with the node");
+    kani::cover!(x == 1 && a2 == 1 && b2 == 3 && a3 == 1 && b3 == 3 && live_edges == 1, "parallel edges removed out of the middle of another node's incoming list, unrelated edge kept");
+    kani::cover!(x == 3 && a2 == 1 && b2 == 3 && a3 == 2 && b3 == 1 && live_edges == 1, "cascade unlinks the last and the first edge of other nodes' outgoing lists");
+    kani::cover!(x == -4 && live_edges == 3, "edge id given to remove_node is a no-op");
+    kani::cover!(true, "end of harness reachable");
+    std::mem::forget(s);
+}
+
+//@ id=C08 tier=quick timeout=1500 bounds="nodes 1,2,3; edges -4 = 1->2, -5 = symbolic endpoints in {1,2,3}, -6 = 3->3; remove_node(x), x in {1,2,3}; then insert_node, insert_edge(symbolic endpoints in {1,2,3}), insert_node; <= 7 slots" desc="slots freed by a remove_node cascade (node and incident edges) are handed out again one by one: every new id was not live, freed slots are reused before the structure grows, the free stack holds exactly the free slots after every insert, an edge to the removed-and-not-yet-reinserted node is rejected without effect, node_count follows" kernel="GraphImpl::remove_node,GraphImpl::free_index,GraphImpl::get_free_index,GraphImpl::insert_node,GraphImpl::insert_edge" args="--no-assertion-reach-checks" cbmc="--unwindset _RINvNtCs8xvirJzNMvV_4core3ptr9drop_glueNtNtNtCsblifWy3Zr35_4agdb2db8db_error7DbErrorEBH_:1,_RNvMsb_NtCsblifWy3Zr35_4agdb5graphINtB5_9GraphImplNtNtB7_13verif_support10ArrStorageNtBO_8ArrGraphE16remove_from_edgeB7_.0:4,_RNvMsb_NtCsblifWy3Zr35_4agdb5graphINtB5_9GraphImplNtNtB7_13verif_support10ArrStorageNtBO_8ArrGraphE14remove_to_edgeB7_.0:4,_RNvMsb_NtCsblifWy3Zr35_4agdb5graphINtB5_9GraphImplNtNtB7_13verif_support10ArrStorageNtBO_8ArrGraphE17remove_from_edgesB7_.0:4,_RNvMsb_NtCsblifWy3Zr35_4agdb5graphINtB5_9GraphImplNtNtB7_13verif_support10ArrStorageNtBO_8ArrGraphE15remove_to_edgesB7_.0:4"
+#[kani::proof]
+#[kani::stub(std::fmt::format, crate::verif_support::fmt_stub)]
+#[kani::stub(crate::DbError::new, crate::verif_support::dberror_new_stub)]
+#[kani::unwind(8)]
+fn c08_reuse_after_remove_node() {
+    let mut s = crate::storage::verif_h::fresh_arr_storage();
+    let mut g = new_arr_graph();
+    let mut m = RefGraph::with_limit(8);
+    m.maxl = 3;
+    graph_step(&mut g, &mut s, &mut m, 0, 0, 0);
+    graph_step(&mut g, &mut s, &mut m, 0, 0, 0);
+    graph_step(&mut g, &mut s, &mut m, 0, 0, 0);
+    graph_step(&mut g, &mut s, &mut m, 1, 1, 2);
+    let (a2, b2) = (c08_any_in(1, 3), c08_any_in(1, 3));
+    graph_step(&mut g, &mut s, &mut m, 1, a2, b2);
+    graph_step(&mut g, &mut s, &mut m, 1, 3, 3);
+    let x = c08_any_in(1, 3);
+    graph_step(&mut g, &mut s, &mut m, 2, x, 0);
+    c08_check_free_list(&g, &m);
+    let freed = 4 - (m.count_from(1) + m.count_from(2) + m.count_from(3));
+    let (a4, b4) = (c08_any_in(1, 3), c08_any_in(1, 3));
+    graph_step(&mut g, &mut s, &mut m, 1, a4, b4);
+    c08_check_free_list(&g, &m);
+    graph_step(&mut g, &mut s, &mut m, 0, 0, 0);
+    c08_check_free_list(&g, &m);
+    graph_step(&mut g, &mut s, &mut m, 0, 0, 0);
+    c08_check_free_list(&g, &m);
+    assert!(ok(g.node_count(&s)) == m.node_count() && m.node_count() == 4, "node_count differs");
+    kani::cover!(a4 == x, "edge from the removed node rejected");
+    kani::cover!(freed == 3 && x == 3 && a2 == 1 && b2 == 3 && a4 != 3 && b4 != 3 && m.cap == 7, "node, incoming edge and self-loop freed; all three slots reused, no growth");
+    kani::cover!(freed == 2 && m.cap == 8, "fewer slots freed than inserted: structure grew");
+    kani::cover!(true, "end of harness reachable");
+    std::mem::forget(s);
+}
+
+//@ id=C08 tier=quick timeout=600 bounds="state: nodes 1,2 live, node 3 removed (free slot), edge -4 = 1->2; insert_edge(a, b) with a, b any i64 except i64::MIN and -1,-2,4 (ids whose sign contradicts the live element, never produced by DbImpl::graph_index)" desc="insert_edge succeeds exactly when both endpoints are live nodes; with a missing, removed, zero, out-of-range or edge-id endpoint it returns Err and from/to/from_meta/to_meta are bit-identical; on success the id is negative, was not live, reuses the free slot, and the whole graph equals the reference" kernel="GraphImpl::insert_edge,GraphImpl::validate_node,GraphImpl::is_valid_index,GraphImpl::get_free_index,GraphImpl::set_edge" args="--no-assertion-reach-checks" cbmc="--unwindset _RINvNtCs8xvirJzNMvV_4core3ptr9drop_glueNtNtNtCsblifWy3Zr35_4agdb2db8db_error7DbErrorEBH_:1,_RNvMsb_NtCsblifWy3Zr35_4agdb5graphINtB5_9GraphImplNtNtB7_13verif_support10ArrStorageNtBO_8ArrGraphE16remove_from_edgeB7_.0:4,_RNvMsb_NtCsblifWy3Zr35_4agdb5graphINtB5_9GraphImplNtNtB7_13verif_support10ArrStorageNtBO_8ArrGraphE14remove_to_edgeB7_.0:4,_RNvMsb_NtCsblifWy3Zr35_4agdb5graphINtB5_9GraphImplNtNtB7_13verif_support10ArrStorageNtBO_8ArrGraphE17remove_from_edgesB7_.0:4,_RNvMsb_NtCsblifWy3Zr35_4agdb5graphINtB5_9GraphImplNtNtB7_13verif_support10ArrStorageNtBO_8ArrGraphE15remove_to_edgesB7_.0:4"
+#[kani::proof]
+#[kani::stub(std::fmt::format, crate::verif_support::fmt_stub)]
+#[kani::stub(crate::DbError::new, crate::verif_support::dberror_new_stub)]
+#[kani::unwind(6)]
+fn c08_insert_edge_invalid_endpoint() {
+    let mut s = crate::storage::verif_h::fresh_arr_storage();
+    let mut g = new_arr_graph();
+    let mut m = RefGraph::with_limit(5);
+    m.maxl = 2;
+    graph_step(&mut g, &mut s, &mut m, 0, 0, 0);
+    graph_step(&mut g, &mut s, &mut m, 0, 0, 0);
+    graph_step(&mut g, &mut s, &mut m, 0, 0, 0);
+    graph_step(&mut g, &mut s, &mut m, 1, 1, 2);
+    graph_step(&mut g, &mut s, &mut m, 2, 3, 0);
+    let a: i64 = kani::any();
+    let b: i64 = kani::any();
+    kani::assume(graph_step_pre(&m, 1, a, b));
+    graph_step(&mut g, &mut s, &mut m, 1, a, b);
+    graph_check(&g, &s, &m);
+    kani::cover!(a == 3 && b == 1, "removed node as origin");
+    kani::cover!(a == 2 && b == -4, "edge id as destination");
+    kani::cover!(a == 0 || b == 0, "zero id");
+    kani::cover!(a == 5 && b == 1, "id just beyond the capacity");
+    kani::cover!(a == 2 && b == 2 && m.is_edge(-3), "valid self-loop reuses the freed slot");
+    kani::cover!(true, "end of harness reachable");
+    std::mem::forget(s);
+}
+
+//@ id=C08 tier=quick timeout=900 bounds="state: nodes 1,2; edges -3 = 1->2, -4 = 1->1; remove_edge(x), remove_edge(y) with x, y any i64 id; then insert_node, insert_edge(symbolic endpoints in {1,2}), insert_node; <= 6 slots" desc="free-slot stack: after two removals every new node/edge gets an id that is not live, freed slots are reused before the structure grows, the stack threaded through from_meta holds exactly the free slots, and the final graph equals the reference" kernel="GraphImpl::free_index,GraphImpl::get_free_index,GraphImpl::remove_edge,GraphImpl::insert_node,GraphImpl::insert_edge" args="--no-assertion-reach-checks" cbmc="--unwindset _RINvNtCs8xvirJzNMvV_4core3ptr9drop_glueNtNtNtCsblifWy3Zr35_4agdb2db8db_error7DbErrorEBH_:1,_RNvMsb_NtCsblifWy3Zr35_4agdb5graphINtB5_9GraphImplNtNtB7_13verif_support10ArrStorageNtBO_8ArrGraphE16remove_from_edgeB7_.0:4,_RNvMsb_NtCsblifWy3Zr35_4agdb5graphINtB5_9GraphImplNtNtB7_13verif_support10ArrStorageNtBO_8ArrGraphE14remove_to_edgeB7_.0:4,_RNvMsb_NtCsblifWy3Zr35_4agdb5graphINtB5_9GraphImplNtNtB7_13verif_support10ArrStorageNtBO_8ArrGraphE17remove_from_edgesB7_.0:4,_RNvMsb_NtCsblifWy3Zr35_4agdb5graphINtB5_9GraphImplNtNtB7_13verif_support10ArrStorageNtBO_8ArrGraphE15remove_to_edgesB7_.0:4"
+#[kani::proof]
+#[kani::stub(std::fmt::format, crate::verif_support::fmt_stub)]
+#[kani::stub(crate::DbError::new, crate::verif_support::dberror_new_stub)]
+#[kani::unwind(7)]
+fn c08_free_slot_reuse() {
+    let mut s = crate::storage::verif_h::fresh_arr_storage();
+    let mut g = new_arr_graph();
+    let mut m = RefGraph::with_limit(7);
+    m.maxl = 3;
+    graph_step(&mut g, &mut s, &mut m, 0, 0, 0);
+    graph_step(&mut g, &mut s, &mut m, 0, 0, 0);
+    graph_step(&mut g, &mut s, &mut m, 1, 1, 2);
+    graph_step(&mut g, &mut s, &mut m, 1, 1, 1);
+    let x = c08_any_arg(&m, 3);
+    graph_step(&mut g, &mut s, &mut m, 3, x, 0);
+    let y = c08_any_arg(&m, 3);
+    graph_step(&mut g, &mut s, &mut m, 3, y, 0);
+    c08_check_free_list(&g, &m);
+    let freed = 2 - (m.count_from(1) + m.count_from(2));
+    graph_step(&mut g, &mut s, &mut m, 0, 0, 0);
+    c08_check_free_list(&g, &m);
+    let (a, b) = (c08_any_in(1, 2), c08_any_in(1, 2));
+    graph_step(&mut g, &mut s, &mut m, 1, a, b);
+    c08_check_free_list(&g, &m);
+    graph_step(&mut g, &mut s, &mut m, 0, 0, 0);
+    kani::assume(m.cap <= m.lim);
+    graph_check(&g, &s, &m);
+    kani::cover!(freed == 2 && x == -3 && y == -4 && m.cap == 6, "older then newer edge removed, both slots reused, third insert grew");
+    kani::cover!(freed == 2 && x == -4 && y == -3, "newer then older edge removed");
+    kani::cover!(freed == 1 && x == y && m.cap == 7, "second removal of the same id is a no-op; one reuse, two fresh slots");
+    kani::cover!(true, "end of harness reachable");
+    std::mem::forget(s);
+}
+
+fn c08_sym_op(g: &mut ArrG, s: &mut Storage<ArrStorage>, m: &mut RefGraph) -> (u8, i64, i64) {
+    let kind: u8 = kani::any();
+    let a: i64 = kani::any();
+    let b: i64 = kani::any();
+    kani::assume(graph_step_pre(m, kind, a, b));
+    graph_step(g, s, m, kind, a, b);
+    graph_check(g, s, m);
+    (kind, a, b)
+}
+
+//@ id=C08 tier=thorough timeout=7200 bounds="4 operations, each with symbolic kind (insert_node / insert_edge / remove_node / remove_edge) and symbolic arguments (any i64 except i64::MIN and sign-contradicting ids), from the empty graph; <= 4 slots" desc="after every step the real graph equals the reference multigraph (id signs, freshness, slot reuse, node_count, endpoints, per-node counts, newest-first adjacency lists, free list); failed insert_edge and removals of missing ids leave the four arrays bit-identical" kernel="GraphImpl::insert_node,GraphImpl::insert_edge,GraphImpl::remove_node,GraphImpl::remove_edge,GraphImpl::node,GraphImpl::edge,GraphImpl::get_free_index,GraphImpl::free_index" args="--no-assertion-reach-checks" cbmc="--unwindset _RINvNtCs8xvirJzNMvV_4core3ptr9drop_glueNtNtNtCsblifWy3Zr35_4agdb2db8db_error7DbErrorEBH_:1,_RNvMsb_NtCsblifWy3Zr35_4agdb5graphINtB5_9GraphImplNtNtB7_13verif_support10ArrStorageNtBO_8ArrGraphE16remove_from_edgeB7_.0:4,_RNvMsb_NtCsblifWy3Zr35_4agdb5graphINtB5_9GraphImplNtNtB7_13verif_support10ArrStorageNtBO_8ArrGraphE14remove_to_edgeB7_.0:4,_RNvMsb_NtCsblifWy3Zr35_4agdb5graphINtB5_9GraphImplNtNtB7_13verif_support10ArrStorageNtBO_8ArrGraphE17remove_from_edgesB7_.0:4,_RNvMsb_NtCsblifWy3Zr35_4agdb5graphINtB5_9GraphImplNtNtB7_13verif_support10ArrStorageNtBO_8ArrGraphE15remove_to_edgesB7_.0:4"
+#[kani::proof]
+#[kani::stub(std::fmt::format, crate::verif_support::fmt_stub)]
+#[kani::stub(crate::DbError::new, crate::verif_support::dberror_new_stub)]
+#[kani::unwind(5)]
+fn c08_ops_from_empty_k4() {
+    let mut s = crate::storage::verif_h::fresh_arr_storage();
+    let mut g = new_arr_graph();
+    let mut m = RefGraph::with_limit(5);
+    m.maxl = 3;
+    let o1 = c08_sym_op(&mut g, &mut s, &mut m);
+    let o2 = c08_sym_op(&mut g, &mut s, &mut m);
+    let o3 = c08_sym_op(&mut g, &mut s, &mut m);
+    let o4 = c08_sym_op(&mut g, &mut s, &mut m);
+    kani::cover!(o1.0 == 0 && o2.0 == 1 && o3.0 == 2 && o4.0 == 0 && m.cap == 3, "node, self-loop, remove node, slot reused");
+    kani::cover!(o1.0 == 0 && o2.0 == 1 && o3.0 == 3 && o4.0 == 1 && m.is_edge(-2), "edge removed and its slot reused by an edge");
+    kani::cover!(o4.0 == 1 && !m.is_node(o4.1) && m.node_count() == 2, "insert_edge with a missing origin rejected");
+    kani::cover!(true, "end of harness reachable");
+    std::mem::forget(s);
+}
+
+// ---------------------------------------------------------------------------
+// C18: slot-order iteration
+// ---------------------------------------------------------------------------
+
+/// Symbolic insert: a node, or an edge between two live nodes (symbolic endpoints).
+pub(crate) fn graph_sym_insert(g: &mut ArrG, s: &mut Storage<ArrStorage>, m: &mut RefGraph) {
+    let edge: bool = kani::any();
+    if edge {
+        let a: i64 = kani::any();
+        let b: i64 = kani::any();
+        kani::assume(m.is_node(a) && m.is_node(b));
+        graph_step(g, s, m, 1, a, b);
+    } else {
+        graph_step(g, s, m, 0, 0, 0);
+    }
+}
+
+/// Symbolic removal of a live element (node with its cascade, or edge).
+pub(crate) fn graph_sym_remove(g: &mut ArrG, s: &mut Storage<ArrStorage>, m: &mut RefGraph) -> i64 {
+    let a: i64 = kani::any();
+    kani::assume(m.is_node(a) || m.is_edge(a));
+    if a > 0 {
+        graph_step(g, s, m, 2, a, 0);
+    } else {
+        graph_step(g, s, m, 3, a, 0);
+    }
+    a
+}
+
+/// A graph after a short symbolic history with removals and slot reuse:
+/// nodes 1,2; insert; insert; remove; remove; insert  (<= 4 slots + header).
+pub(crate) fn graph_sym_history(g: &mut ArrG, s: &mut Storage<ArrStorage>, m: &mut RefGraph) {
+    graph_step(g, s, m, 0, 0, 0);
+    graph_step(g, s, m, 0, 0, 0);
+    graph_sym_insert(g, s, m);
+    graph_sym_insert(g, s, m);
+    graph_sym_remove(g, s, m);
+    graph_sym_remove(g, s, m);
+    graph_sym_insert(g, s, m);
+}
+
+/// The live elements in increasing slot order, edges negative.
+pub(crate) fn graph_slot_order(m: &RefGraph, out: &mut [i64; GN]) -> usize {
+    let mut n = 0;
+    let mut i = 1;
+    while i < m.lim {
+        if m.kind[i] == 1 {
+            out[n] = i as i64;
+            n += 1;
+        } else if m.kind[i] == 2 {
+            out[n] = -(i as i64);
+            n += 1;
+        }
+        i += 1;
+    }
+    n
+}
+
+//@ id=C18 tier=quick timeout=1500 bounds="graph after: nodes 1,2; 2 symbolic inserts (node or edge with symbolic live endpoints); 2 symbolic removals of live elements (node cascade or edge); 1 symbolic insert (slot reuse); <= 4 slots" desc="GraphImpl::iter yields exactly the live elements in increasing slot number, edges as negative ids, removed slots absent, each once, then None forever; next_element from any start index (either sign, also beyond the capacity) returns the next live slot above it" kernel="GraphImpl::next_element,GraphIterator::next,GraphImpl::iter,GraphImpl::is_removed_index,GraphImpl::is_valid_edge" args="--no-assertion-reach-checks" cbmc="--unwindset _RINvNtCs8xvirJzNMvV_4core3ptr9drop_glueNtNtNtCsblifWy3Zr35_4agdb2db8db_error7DbErrorEBH_:1,_RNvMsb_NtCsblifWy3Zr35_4agdb5graphINtB5_9GraphImplNtNtB7_13verif_support10ArrStorageNtBO_8ArrGraphE16remove_from_edgeB7_.0:4,_RNvMsb_NtCsblifWy3Zr35_4agdb5graphINtB5_9GraphImplNtNtB7_13verif_support10ArrStorageNtBO_8ArrGraphE14remove_to_edgeB7_.0:4,_RNvMsb_NtCsblifWy3Zr35_4agdb5graphINtB5_9GraphImplNtNtB7_13verif_support10ArrStorageNtBO_8ArrGraphE17remove_from_edgesB7_.0:4,_RNvMsb_NtCsblifWy3Zr35_4agdb5graphINtB5_9GraphImplNtNtB7_13verif_support10ArrStorageNtBO_8ArrGraphE15remove_to_edgesB7_.0:4"
+#[kani::proof]
+#[kani::stub(std::fmt::format, crate::verif_support::fmt_stub)]
+#[kani::stub(crate::DbError::new, crate::verif_support::dberror_new_stub)]
+#[kani::unwind(6)]
+fn c18_iter_slot_order() {
+    let mut s = crate::storage::verif_h::fresh_arr_storage();
+    let mut g = new_arr_graph();
+    let mut m = RefGraph::with_limit(5);
+    m.maxl = 3;
+    graph_sym_history(&mut g, &mut s, &mut m);
+    let mut exp = [0i64; GN];
+    let n = graph_slot_order(&m, &mut exp);
+    // whole iteration
+    let mut it = g.iter(&s);
+    let mut k = 0;
+    while k < m.lim {
+        match it.next() {
+            Some(i) => {
+                assert!(k < n, "iterator yields more than the live elements");
+                assert!(i.0 == exp[k], "iterator element differs from slot order");
+            }
+            None => break,
+        }
+        k += 1;
+    }
+    assert!(k == n, "iterator stopped before all live elements");
+    assert!(it.next().is_none() && it.next().is_none(), "iterator restarts after the end");
+    // single step from an arbitrary index
+    let start: i64 = kani::any();
+    kani::assume(start > -(GN as i64) && start < GN as i64);
+    let mag = start.unsigned_abs() as usize;
+    let mut want = 0i64;
+    let mut j = m.lim - 1;
+    while j >= 1 {
+        if j > mag && m.kind[j] != 0 {
+            want = if m.kind[j] == 2 { -(j as i64) } else { j as i64 };
+        }
+        j -= 1;
+    }
+    match g.next_element(&s, GraphIndex(start)) {
+        Some(i) => assert!(i.0 == want, "next_element differs from the next live slot"),
+        None => assert!(want == 0, "next_element missed a live slot"),
+    }
+    kani::cover!(n == 3 && exp[0] == -1, "slot 1 reused by an edge: sequence starts with an edge");
+    kani::cover!(n == 1, "a single live element left");
+    kani::cover!(n == 2 && exp[0] == 1 && exp[1] == -4, "gap of two freed slots skipped");
+    kani::cover!(start < 0 && want > 0, "next_element from a negative index");
+    kani::cover!(true, "end of harness reachable");
+    std::mem::forget(s);
+}
+
+//@ id=C08 tier=thorough timeout=6000 bounds="nodes 1,2,3; three edges with symbolic endpoints in {1,2,3}; remove_node(any i64 id except sign-contradicting ones); then insert_node and one edge with symbolic endpoints; <= 6 slots" desc="remove_node removes the node and every incident edge (incoming, outgoing, self-loops, parallel edges) and nothing else; afterwards a new node and a new edge get ids that were not live and reuse freed slots; after both phases the whole graph (endpoints, counts, newest-first lists, node_count, free list) equals the reference" kernel="GraphImpl::remove_node,GraphImpl::remove_from_edges,GraphImpl::remove_to_edges,GraphImpl::remove_from_edge,GraphImpl::remove_to_edge,GraphImpl::free_index,GraphImpl::get_free_index,GraphImpl::insert_node,GraphImpl::insert_edge" args="--no-assertion-reach-checks" cbmc="--unwindset _RINvNtCs8xvirJzNMvV_4core3ptr9drop_glueNtNtNtCsblifWy3Zr35_4agdb2db8db_error7DbErrorEBH_:1,_RNvMsb_NtCsblifWy3Zr35_4agdb5graphINtB5_9GraphImplNtNtB7_13verif_support10ArrStorageNtBO_8ArrGraphE16remove_from_edgeB7_.0:4,_RNvMsb_NtCsblifWy3Zr35_4agdb5graphINtB5_9GraphImplNtNtB7_13verif_support10ArrStorageNtBO_8ArrGraphE14remove_to_edgeB7_.0:4,_RNvMsb_NtCsblifWy3Zr35_4agdb5graphINtB5_9GraphImplNtNtB7_13verif_support10ArrStorageNtBO_8ArrGraphE17remove_from_edgesB7_.0:4,_RNvMsb_NtCsblifWy3Zr35_4agdb5graphINtB5_9GraphImplNtNtB7_13verif_support10ArrStorageNtBO_8ArrGraphE15remove_to_edgesB7_.0:4"
+#[kani::proof]
+#[kani::stub(std::fmt::format, crate::verif_support::fmt_stub)]
+#[kani::stub(crate::DbError::new, crate::verif_support::dberror_new_stub)]
+#[kani::unwind(8)]
+fn c08_remove_node_cascade_deep() {
+    let mut s = crate::storage::verif_h::fresh_arr_storage();
+    let mut g = new_arr_graph();
+    let mut m = RefGraph::with_limit(8);
+    m.maxl = 4;
+    graph_step(&mut g, &mut s, &mut m, 0, 0, 0);
+    graph_step(&mut g, &mut s, &mut m, 0, 0, 0);
+    graph_step(&mut g, &mut s, &mut m, 0, 0, 0);
+    let (a1, b1) = (c08_any_in(1, 3), c08_any_in(1, 3));
+    let (a2, b2) = (c08_any_in(1, 3), c08_any_in(1, 3));
+    let (a3, b3) = (c08_any_in(1, 3), c08_any_in(1, 3));
+    graph_step(&mut g, &mut s, &mut m, 1, a1, b1);
+    graph_step(&mut g, &mut s, &mut m, 1, a2, b2);
+    graph_step(&mut g, &mut s, &mut m, 1, a3, b3);
+    let x = c08_any_arg(&m, 2);
+    graph_step(&mut g, &mut s, &mut m, 2, x, 0);
+    graph_check(&g, &s, &m);
+    let live_edges = m.count_from(1) + m.count_from(2) + m.count_from(3);
+    graph_step(&mut g, &mut s, &mut m, 0, 0, 0);
+    let (a4, b4) = (c08_any_in(1, 3), c08_any_in(1, 3));
+    graph_step(&mut g, &mut s, &mut m, 1, a4, b4);
+    graph_check(&g, &s, &m);
+    kani::cover!(x == 2 && live_edges == 0 && a1 == 2 && b1 == 2, "all three edges incident to the removed node, one a self-loop");
+    kani::cover!(x == 1 && a1 == 2 && a2 == 1 && a3 == 2 && b1 == 3 && b2 == 3 && b3 == 3 && live_edges == 2, "middle of another node's incoming list unlinked by the cascade");
+    kani::cover!(x == 3 && m.is_node(3) && m.cap == 7, "removed node's id reused, no growth");
+    kani::cover!(true, "end of harness reachable");
+    std::mem::forget(s);
+}
